@@ -35,6 +35,39 @@ if hasattr(sys, "set_int_max_str_digits"):
     sys.set_int_max_str_digits(1_000_000)
 
 BUILTIN = ["Equal", "x", "1/x", "1/(x^2)", "y", "1/y", "1/(y^2)"]
+# labels of custom weight vectors: `weights=(label, vector)` uses the vector as given whatever the label says, unless the
+# label IS one of the seven built-in names (then pewlib takes it for the built-in weighting and ignores the vector: not a
+# custom weighting, never generated as one)
+CUSTOM_LABELS = [
+    "Custom", "custom", "w", "None",
+    "1/sqrt(y)", "poly", "by variance", "1/y^2", "1/(y^2) ", "yy", "1/y ", " y", "1/(y^3)", "std(y)^-2",      # contain 'y'
+    "1/sqrt(x)", "x^2", "1/x^2", " 1/x", "max", "1/(x^2)/2", "x ",                                          # contain 'x'
+    "xy", "1/(x^2)+1/(y^2)", "1/xy",                                                                        # both
+    "equal", "EQUAL", "X", "Y", "1/X", "1/(X^2)", "1/Y", "1/(Y^2)", "Equal ",                               # case / blank variants
+    "", " ", "1/\u03c3\u00b2", "\u91cd\u307f", "poids-y\u00b7\u00e9", "variance weights from replicate standards (y)",  # empty, non-ASCII, > 32 chars
+]
+assert not any(lab in BUILTIN for lab in CUSTOM_LABELS)
+
+
+def label_features(lab):
+    f = set()
+    if "y" in lab:
+        f.add("custom-label:contains-y")
+    if "x" in lab:
+        f.add("custom-label:contains-x")
+    if any(b in lab for b in BUILTIN if len(b) > 1):
+        f.add("custom-label:builtin-name-as-substring")
+    if lab.strip() not in BUILTIN and any(lab.strip().lower() == b.lower() for b in BUILTIN):
+        f.add("custom-label:case-variant-of-builtin")
+    if lab.strip() in BUILTIN:
+        f.add("custom-label:builtin-name-with-blanks")
+    if lab.strip() == "":
+        f.add("custom-label:empty-or-blank")
+    if any(ord(ch) > 127 for ch in lab):
+        f.add("custom-label:non-ascii")
+    if len(lab) > 32:
+        f.add("custom-label:longer-than-32")
+    return f or {"custom-label:plain"}
 TOL = 1e-9          # relative tolerance on gradient/intercept (in the column-scaled norm) and r²
 RHO_MIN = 1e-18     # conditioning guard: D/(Sw*Swxx) below this => undetermined (above it the perturbation bound decides)
 COV_MARGIN_MIN = 1e-12  # 1 - Σw²/(Σw)² below this => r² not compared (np.cov's normalisation cancels)
@@ -512,17 +545,19 @@ def make_histories(rng, rows, weighting, cw):
     other_b = lambda: rng.choice([b for b in BUILTIN if b != weighting])
     other_n = lambda: rng.choice([k for k in (n + 1, n + 2, n - 1, 3, 2, 5) if k >= 0 and k != n])
     hs = []
+    lab = weighting if cw is not None else rng.choice(CUSTOM_LABELS)   # the same label with another vector for a custom case
+    olab = lambda: rng.choice(CUSTOM_LABELS)
     # (a) custom weights of the same length as the case's points: on the case's points (then only the weights are
     #     assigned, or both) and on other points of that length
-    hs.append({"ops": [new("case", "Custom", prior_cw(rng, n))], "final": rng.choice(["w", "w", "pw", "wp"])})
-    hs.append({"ops": [new(prior_rows(rng, n), "Custom", prior_cw(rng, n))], "final": "pw"})
-    hs.append({"ops": [new(prior_rows(rng, n), "Custom", prior_cw(rng, n))], "final": "wp"})
+    hs.append({"ops": [new("case", lab, prior_cw(rng, n))], "final": rng.choice(["w", "w", "pw", "wp"])})
+    hs.append({"ops": [new(prior_rows(rng, n), olab(), prior_cw(rng, n))], "final": "pw"})
+    hs.append({"ops": [new(prior_rows(rng, n), olab(), prior_cw(rng, n))], "final": "wp"})
     # (b) custom weights of another length
     m = other_n()
-    hs.append({"ops": [new(prior_rows(rng, m), "Custom", prior_cw(rng, m))], "final": "pw"})
+    hs.append({"ops": [new(prior_rows(rng, m), olab(), prior_cw(rng, m))], "final": "pw"})
     if cw is None:
         m = other_n()
-        hs.append({"ops": [new(prior_rows(rng, m), "Custom", prior_cw(rng, m))], "final": "wp"})
+        hs.append({"ops": [new(prior_rows(rng, m), olab(), prior_cw(rng, m))], "final": "wp"})
     # (c) another built-in weighting
     hs.append({"ops": [new("case", other_b())], "final": rng.choice(["w", "w", "pw", "wp"])})
     hs.append({"ops": [new(prior_rows(rng, rng.choice([n, other_n()])), other_b())], "final": "pw"})
@@ -538,7 +573,7 @@ def make_histories(rng, rows, weighting, cw):
     hs.append({"ops": [new(pr, "case")], "final": rng.choice(["p", "p", "pw", "wp"])})
     # built-in -> custom -> built-in on one object (for a custom case the chain is continued to the case's vector)
     ops = [new(rng.choice(["case", prior_rows(rng, n)]), rng.choice(BUILTIN)),
-           {"op": "weights", "weighting": "Custom", "cw": prior_cw(rng, n)}]
+           {"op": "weights", "weighting": olab(), "cw": prior_cw(rng, n)}]
     if rng.random() < 0.7:
         ops.append({"op": "fit"})
     if cw is not None or rng.random() < 0.3:
@@ -559,7 +594,7 @@ def make_histories(rng, rows, weighting, cw):
     else:
         # (g) the public attribute `weighting` assigned directly, after another built-in and after a custom vector
         hs.append({"ops": [new("case", other_b())], "final": rng.choice(["N", "fN", "pN", "Np"])})
-        hs.append({"ops": [new("case", "Custom", prior_cw(rng, n))], "final": rng.choice(["N", "fN"])})
+        hs.append({"ops": [new("case", olab(), prior_cw(rng, n))], "final": rng.choice(["N", "fN"])})
     # (h) an extra refit between the two assignments (legal when the object is consistent in between) / twice at the end
     hs.append({"ops": [new(prior_rows(rng, rng.choice([n, other_n()])), other_b())], "final": rng.choice(["pfw", "pwf", "wfp"] if cw is None else ["pfw", "pwf"])})
     # (i) an object that came back from to_array / from_array (as stored in a laser file): refitted as it is, and given
@@ -1053,10 +1088,10 @@ class C06(Prop):
                 row = [None, None]
             pos = rng.choice([0, len(rows), rng.randint(0, len(rows))])
             rows.insert(pos, row)
-        weighting = rng.choice(BUILTIN + ["custom", "1/x", "1/(x^2)"])
+        weighting = rng.choice(BUILTIN + ["custom", "custom", "1/x", "1/(x^2)"])
         cw = None
         if weighting == "custom":
-            weighting = "Custom"
+            weighting = rng.choice(CUSTOM_LABELS)
             cw = [10.0 ** rng.uniform(-3, 3) if rng.random() < 0.8 else float(rng.choice([1, 2, 5])) for _ in rows]
             for i, r in enumerate(rows):
                 if is_nan_row(r) and rng.random() < 0.4:
@@ -1276,6 +1311,11 @@ class C06(Prop):
             few = [[[1.0, 2.0]], [[1.0, 2.0], [None, 3.0]], [], [[0.0, 1.0], [2.0, None], [None, None]]][k % 4]
             yield {"kind": "fit", "rows": few, "weighting": w, "cw": [1.0, 2.0, 3.0][:len(few)] if w == "Custom" else None, "perms": [],
                    "hists": [{"ops": [fitted], "final": f, "vals": {**vals, "g": 1.0 if f == "i" else 2.0}} for f in ("gi", "g", "i", "gire", "gp")]}
+
+        # labels of custom weight vectors: every label on a ladder with a zero level and a NaN row
+        for k, lab in enumerate(CUSTOM_LABELS):
+            yield {"kind": "fit", "rows": [[0.0, 1.0], [1.0, 2.0 + k % 3], [None, 7.0], [2.0, 4.5], [5.0, 9.0]], "weighting": lab,
+                   "cw": [5.0, 0.25, None, 3.0, 0.5], "perms": [[4, 3, 2, 1, 0]], "tables": ["list"]}
 
     def targeted_plain(self, tier):
         base = [[0.0, 1.0], [1.0, 2.0], [2.0, 4.0]]
@@ -1539,7 +1579,7 @@ class C06(Prop):
 
     def fit_features(self, case, clean, fitted, hyp, check_rsq, hist_feats=()):
         rows, w = case["rows"], case["weighting"]
-        f = {f"w:{w}", f"usable{min(len(clean), 6)}{'+' if len(clean) > 6 else ''}"}
+        f = {"w:" + (w if case["cw"] is None else "custom"), f"usable{min(len(clean), 6)}{'+' if len(clean) > 6 else ''}"}
         nanrows = [r for r in rows if is_nan_row(r)]
         nontrivial = False
         if hist_feats:  # the fit was also reached through at least one history on one object
@@ -1553,11 +1593,11 @@ class C06(Prop):
                 f.add("nan-row-first")
             if is_nan_row(rows[-1]):
                 f.add("nan-row-last")
-            col = 1 if "y" in w else 0
+            col = 1 if (case["cw"] is None and "y" in w) else 0
             vals = [r[col] for r in clean if r[col] != 0]
             zeros = [r for r in clean if r[col] == 0]
             stray = [r[col] for r in nanrows if r[col] is not None]
-            if zeros and vals and any(0 < s < min(vals) for s in stray) and w not in ("Equal", "Custom"):
+            if zeros and vals and any(0 < s < min(vals) for s in stray) and w != "Equal" and case["cw"] is None:
                 f.add("nan-row-below-smallest-level-with-zero-level")
             if zeros and not vals and any(s != 0 for s in stray):
                 f.add("nan-row-only-nonzero-level")
@@ -1572,6 +1612,7 @@ class C06(Prop):
             f.add("perms:all" if len(case["perms"]) == math.factorial(m) - 1 else "perms:sampled")
         if case["cw"] is not None:
             f.add("custom-weights")
+            f |= label_features(w)
             nontrivial = True
         if not fitted:
             f.add("few-points->identity")
